@@ -24,6 +24,16 @@ type LoopSpec struct {
 	Decreases  *Clause
 }
 
+// Macro is a named contract expression: //@ define name(a, b) = expr
+type Macro struct {
+	Name   string
+	Params []string
+	Body   ast.Expr
+	Text   string
+}
+
+var macros = map[string]*Macro{} // key: relpkg + "." + name
+
 type Contract struct {
 	Key       string
 	File      string
@@ -44,7 +54,7 @@ type Contract struct {
 	Lemma     bool
 }
 
-var kwRe = regexp.MustCompile(`^(func|requires|ensures|exsures|modifies|nopanic|assumed|inline|loop|decreases|params|lemma)\b`)
+var kwRe = regexp.MustCompile(`^(define|func|requires|ensures|exsures|modifies|nopanic|assumed|inline|loop|decreases|params|lemma)\b`)
 
 // parseContracts reads all zz_verif_contracts.go files below repo.
 func parseContracts(repo string) (map[string]*Contract, []string, error) {
@@ -89,7 +99,7 @@ func parseContractFile(path, relpkg string, out map[string]*Contract) error {
 	}
 	var pend *pending
 	flush := func() error {
-		if pend == nil || cur == nil {
+		if pend == nil || (cur == nil && pend.kind != "define") {
 			pend = nil
 			return nil
 		}
@@ -104,6 +114,32 @@ func parseContractFile(path, relpkg string, out map[string]*Contract) error {
 			return &Clause{Text: text, Expr: e, Line: fmt.Sprintf("%s:%d", path, p.line)}, nil
 		}
 		switch p.kind {
+		case "define":
+			i := strings.Index(text, "=")
+			if i < 0 {
+				return fmt.Errorf("%s:%d: define needs '='", path, p.line)
+			}
+			head, body := strings.TrimSpace(text[:i]), strings.TrimSpace(text[i+1:])
+			he, err := parseContractExpr(head)
+			if err != nil {
+				return fmt.Errorf("%s:%d: %v", path, p.line, err)
+			}
+			m := &Macro{Text: body}
+			switch h := he.(type) {
+			case *ast.CallExpr:
+				m.Name = h.Fun.(*ast.Ident).Name
+				for _, a := range h.Args {
+					m.Params = append(m.Params, a.(*ast.Ident).Name)
+				}
+			case *ast.Ident:
+				m.Name = h.Name
+			}
+			m.Body, err = parseContractExpr(body)
+			if err != nil {
+				return fmt.Errorf("%s:%d: %v in %q", path, p.line, err, body)
+			}
+			macros[relpkg+"."+m.Name] = m
+			return nil
 		case "requires", "ensures", "exsures", "modifies", "decreases":
 			if p.kind == "modifies" && text == "*" {
 				cur.ModAll = true
